@@ -22,6 +22,13 @@ type Decision struct {
 	Forced bool
 }
 
+// Pending is an unexplored sibling path: its decision prefix and, if known, a
+// model of its path condition at the fork.
+type Pending struct {
+	Prefix []Decision
+	Model  map[string]*big.Int
+}
+
 // pathEnd is thrown (as a Go panic) to finish the current path.
 type pathEnd struct {
 	Status string // done, infeasible, unsupported, unwind, panic, steps
@@ -53,7 +60,11 @@ type AssertRec struct {
 	Harness string
 }
 
+// specAbort aborts a speculative (if-conversion) execution of a block.
+type specAbort struct{}
+
 type frame struct {
+	phiDone *ssa.BasicBlock // phis of this block were already set by if-conversion
 	fn      *ssa.Function
 	env     map[ssa.Value]Value
 	defers  []deferred
@@ -80,12 +91,18 @@ type W struct {
 	prefix  []Decision
 	pos     int
 	trace   []Decision
-	pending [][]Decision
+	pending []Pending
+
+	// model is an assignment satisfying every constraint asserted on this path
+	// so far (nil if none is known); it lets Branch/Assume/Assert skip queries.
+	model     map[string]*big.Int
+	modelMemo map[int]*big.Int
+	known     map[int]bool // branch conditions already decided on this path
 
 	globals      map[*ssa.Global]*Cell
 	initDone     map[*ssa.Package]bool
 	initDepth    int
-	globalsDirty bool
+	journal      []undoRec
 	cellSeq      int
 
 	nondets         []NondetRec
@@ -98,6 +115,8 @@ type W struct {
 	top             *frame
 	ufApps          map[string][]ufApp
 	extra           map[string]interface{} // per-path scratch for intrinsics
+	spec            int // > 0: speculative execution (no forks, no side effects allowed)
+	IfConversions   int
 	funcsHit        map[*ssa.Function]bool
 	stubsHit        map[string]int
 	unknownBranches int
@@ -132,6 +151,47 @@ func (w *W) replaying() bool { return w.pos < len(w.prefix) }
 
 func (w *W) record(d Decision) { w.trace = append(w.trace, d) }
 
+// evalModel evaluates a Bool term under the current path model.
+func (w *W) evalModel(t *smt.Term) (val bool, ok bool) {
+	if w.model == nil {
+		return false, false
+	}
+	if w.modelMemo == nil {
+		w.modelMemo = map[int]*big.Int{}
+	}
+	v := smt.EvalMemo(w.C, t, w.model, w.modelMemo)
+	if v == nil {
+		return false, false
+	}
+	return v.Sign() != 0, true
+}
+
+func (w *W) setModel(m map[string]*big.Int) {
+	w.model = m
+	w.modelMemo = nil
+}
+
+func (w *W) noteKnown(cond *smt.Term, v bool) {
+	if w.known == nil {
+		w.known = map[int]bool{}
+	}
+	w.known[cond.ID] = v
+	w.known[w.C.Not(cond).ID] = !v
+}
+
+// assertRaw adds a constraint that is not a recorded decision (axioms).
+func (w *W) assertRaw(t *smt.Term) {
+	if t.IsTrue() {
+		return
+	}
+	w.S.Assert(t)
+	if w.model != nil && !w.replaying() {
+		if v, ok := w.evalModel(t); !ok || !v {
+			w.setModel(nil)
+		}
+	}
+}
+
 // Branch decides a symbolic condition on this path, forking if both outcomes
 // are feasible.
 func (w *W) Branch(cond *smt.Term) bool {
@@ -140,6 +200,12 @@ func (w *W) Branch(cond *smt.Term) bool {
 	}
 	if cond.IsFalse() {
 		return false
+	}
+	if v, ok := w.known[cond.ID]; ok {
+		return v
+	}
+	if w.spec > 0 {
+		panic(&specAbort{})
 	}
 	if w.initDepth > 0 {
 		w.unsupported("symbolic branch during package initialisation")
@@ -158,25 +224,57 @@ func (w *W) Branch(cond *smt.Term) bool {
 				w.S.Assert(w.C.Not(cond))
 			}
 		}
+		w.noteKnown(cond, d.Taken)
 		return d.Taken
 	}
-	rT, _ := w.S.CheckWith(cond, nil)
+	side := func(b bool) *smt.Term {
+		if b {
+			return cond
+		}
+		return w.C.Not(cond)
+	}
+	if mv, ok := w.evalModel(cond); ok {
+		// the current model already witnesses side mv; only the other needs a query
+		r, m := w.S.CheckWith(side(!mv), w.nondetTerms())
+		if r == smt.Unsat {
+			w.record(Decision{Kind: 'b', Taken: mv, Forced: true})
+			w.noteKnown(cond, mv)
+			return mv
+		}
+		if r == smt.Unknown {
+			w.unknownBranches++
+		}
+		sib := append(append([]Decision{}, w.trace...), Decision{Kind: 'b', Taken: !mv})
+		w.pending = append(w.pending, Pending{Prefix: sib, Model: m})
+		w.record(Decision{Kind: 'b', Taken: mv})
+		w.S.Assert(side(mv))
+		w.noteKnown(cond, mv)
+		return mv
+	}
+	rT, mT := w.S.CheckWith(cond, w.nondetTerms())
 	if rT == smt.Unsat {
 		w.record(Decision{Kind: 'b', Taken: false, Forced: true})
+		w.noteKnown(cond, false)
 		return false
 	}
-	rF, _ := w.S.CheckWith(w.C.Not(cond), nil)
+	rF, mF := w.S.CheckWith(w.C.Not(cond), w.nondetTerms())
 	if rF == smt.Unsat {
 		w.record(Decision{Kind: 'b', Taken: true, Forced: true})
+		w.noteKnown(cond, true)
+		if rT == smt.Sat && mT != nil {
+			w.setModel(mT)
+		}
 		return true
 	}
 	if rT == smt.Unknown || rF == smt.Unknown {
 		w.unknownBranches++
 	}
 	sib := append(append([]Decision{}, w.trace...), Decision{Kind: 'b', Taken: false})
-	w.pending = append(w.pending, sib)
+	w.pending = append(w.pending, Pending{Prefix: sib, Model: mF})
 	w.record(Decision{Kind: 'b', Taken: true})
 	w.S.Assert(cond)
+	w.noteKnown(cond, true)
+	w.setModel(mT)
 	return true
 }
 
@@ -198,8 +296,19 @@ func (w *W) Assume(c *smt.Term) {
 		w.record(d)
 		return
 	}
-	if r := w.S.Check(); r == smt.Unsat {
+	if v, ok := w.evalModel(c); ok && v {
+		w.record(Decision{Kind: 'a'})
+		return
+	}
+	w.setModel(nil)
+	r := w.S.Check()
+	if r == smt.Unsat {
 		panic(&pathEnd{Status: "infeasible"})
+	}
+	if r == smt.Sat {
+		if m, err := w.S.Model(w.nondetTerms()); err == nil {
+			w.setModel(m)
+		}
 	}
 	w.record(Decision{Kind: 'a'})
 }
@@ -256,12 +365,12 @@ func (w *W) Concretize(t *smt.Term, what string) *smt.Term {
 	forced := len(vals) == 1
 	for _, v := range vals[1:] {
 		sib := append(append([]Decision{}, w.trace...), Decision{Kind: 'v', Val: v})
-		w.pending = append(w.pending, sib)
+		w.pending = append(w.pending, Pending{Prefix: sib})
 	}
 	w.record(Decision{Kind: 'v', Val: vals[0], Forced: forced})
 	k := w.C.BV(vals[0], t.W)
 	if !forced {
-		w.S.Assert(w.C.Eq(t, k))
+		w.assertRaw(w.C.Eq(t, k))
 	}
 	return k
 }
@@ -282,7 +391,7 @@ func (w *W) Choose(lo, hi int64) int64 {
 	}
 	for v := lo + 1; v <= hi; v++ {
 		sib := append(append([]Decision{}, w.trace...), Decision{Kind: 'v', Val: big.NewInt(v), Forced: true})
-		w.pending = append(w.pending, sib)
+		w.pending = append(w.pending, Pending{Prefix: sib, Model: w.model})
 	}
 	w.record(Decision{Kind: 'v', Val: big.NewInt(lo), Forced: true})
 	return lo
@@ -363,7 +472,13 @@ func (w *W) Assert(c *smt.Term, label string) {
 	case c.IsTrue():
 		rec.Status = "trivial"
 	default:
-		r, m := w.S.CheckWith(w.C.Not(c), w.nondetTerms())
+		var r smt.Result
+		var m map[string]*big.Int
+		if v, ok := w.evalModel(c); ok && !v {
+			r, m = smt.Sat, w.model
+		} else {
+			r, m = w.S.CheckWith(w.C.Not(c), w.nondetTerms())
+		}
 		switch r {
 		case smt.Unsat:
 			rec.Status = "proved"
@@ -644,10 +759,16 @@ func (w *W) execBlock(fr *frame, b, prev *ssa.BasicBlock) (next *ssa.BasicBlock,
 	// phis first (parallel assignment)
 	nphi := 0
 	var phiVals []Value
+	skipPhi := fr.phiDone == b
+	fr.phiDone = nil
 	for _, ins := range b.Instrs {
 		phi, ok := ins.(*ssa.Phi)
 		if !ok {
 			break
+		}
+		if skipPhi {
+			nphi++
+			continue
 		}
 		idx := -1
 		for i, p := range b.Preds {
@@ -662,7 +783,7 @@ func (w *W) execBlock(fr *frame, b, prev *ssa.BasicBlock) (next *ssa.BasicBlock,
 		phiVals = append(phiVals, w.get(fr, phi.Edges[idx]))
 		nphi++
 	}
-	for i := 0; i < nphi; i++ {
+	for i := 0; i < nphi && !skipPhi; i++ {
 		fr.env[b.Instrs[i].(*ssa.Phi)] = phiVals[i]
 	}
 	for _, ins := range b.Instrs[nphi:] {
@@ -683,6 +804,13 @@ func (w *W) execBlock(fr *frame, b, prev *ssa.BasicBlock) (next *ssa.BasicBlock,
 				fr.symIter[x]++
 				if fr.symIter[x] > w.H.unwind() {
 					panic(&pathEnd{Status: "unwind", Msg: fmt.Sprintf("unwinding assertion: symbolic branch taken more than %d times in one activation of %s%s", w.H.unwind(), fr.fn, w.where())})
+				}
+			}
+			if !c.IsConst() && w.spec == 0 {
+				if _, decided := w.known[c.ID]; !decided {
+					if j := w.ifConvert(fr, b, c); j != nil {
+						return j, nil, false
+					}
 				}
 			}
 			if w.Branch(c) {
@@ -1006,4 +1134,151 @@ func (w *W) typeAssert(fr *frame, x *ssa.TypeAssert) Value {
 		w.goPanicStr("interface conversion: interface is " + have + ", not " + x.AssertedType.String())
 	}
 	return res
+}
+
+// ---- if-conversion -----------------------------------------------------------
+
+// pureInstr reports whether ins can be executed speculatively: it has no side
+// effect on memory and allocates nothing observable. (Panics and forks inside
+// it abort the speculation at run time.)
+func pureInstr(ins ssa.Instruction) bool {
+	switch x := ins.(type) {
+	case *ssa.BinOp, *ssa.Convert, *ssa.ChangeType, *ssa.Field, *ssa.Extract, *ssa.DebugRef,
+		*ssa.FieldAddr, *ssa.IndexAddr, *ssa.Index, *ssa.MakeInterface, *ssa.ChangeInterface, *ssa.Phi:
+		return true
+	case *ssa.UnOp:
+		return x.Op != token.ARROW
+	case *ssa.TypeAssert:
+		return x.CommaOk
+	case *ssa.Lookup:
+		_, isMap := x.X.Type().Underlying().(*types.Map)
+		return !isMap
+	case *ssa.Call:
+		if b, ok := x.Call.Value.(*ssa.Builtin); ok {
+			return b.Name() == "len" || b.Name() == "cap"
+		}
+		if f, ok := x.Call.Value.(*ssa.Function); ok {
+			switch f.Name() {
+			case "vpMul128", "vpAdd128", "vpDivMod128":
+				return true
+			}
+		}
+	}
+	return false
+}
+
+// sideBlock checks that blk is a pure straight-line block between the branch
+// block a and a join: single predecessor a, single successor, pure body.
+func sideBlock(a, blk *ssa.BasicBlock) *ssa.BasicBlock {
+	if len(blk.Preds) != 1 || blk.Preds[0] != a || len(blk.Succs) != 1 || len(blk.Instrs) > 24 {
+		return nil
+	}
+	for _, ins := range blk.Instrs[:len(blk.Instrs)-1] {
+		if !pureInstr(ins) {
+			return nil
+		}
+	}
+	if _, ok := blk.Instrs[len(blk.Instrs)-1].(*ssa.Jump); !ok {
+		return nil
+	}
+	return blk.Succs[0]
+}
+
+// ifConvert handles `if c` whose arms are pure (short-circuit && / ||,
+// conditional increments, min/max idioms): both arms are evaluated and the
+// join block's phis become ite terms, so the path does not fork. It returns
+// the join block, or nil if the shape does not apply.
+func (w *W) ifConvert(fr *frame, a *ssa.BasicBlock, c *smt.Term) (join *ssa.BasicBlock) {
+	t, f := a.Succs[0], a.Succs[1]
+	var tSide, fSide *ssa.BasicBlock // side blocks (nil = edge goes directly to the join)
+	jt, jf := sideBlock(a, t), sideBlock(a, f)
+	switch {
+	case jt != nil && jt == f: // triangle: a -> t -> f, a -> f
+		tSide, join = t, f
+	case jf != nil && jf == t: // triangle: a -> f -> t, a -> t
+		fSide, join = f, t
+	case jt != nil && jt == jf: // diamond
+		tSide, fSide, join = t, f, jt
+	default:
+		return nil
+	}
+	if join == a || len(join.Preds) != 2 {
+		return nil
+	}
+	ok := true
+	var phiVals []Value
+	func() {
+		w.spec++
+		savedSteps := w.steps
+		defer func() {
+			w.spec--
+			if r := recover(); r != nil {
+				switch r.(type) {
+				case *specAbort, *goPanic, *pathEnd:
+					ok = false
+					w.steps = savedSteps
+				default:
+					panic(r)
+				}
+			}
+		}()
+		run := func(blk *ssa.BasicBlock) {
+			if blk == nil {
+				return
+			}
+			for _, ins := range blk.Instrs[:len(blk.Instrs)-1] {
+				if v, isVal := ins.(ssa.Value); isVal {
+					if phi, isPhi := ins.(*ssa.Phi); isPhi {
+						fr.env[phi] = w.get(fr, phi.Edges[0])
+						continue
+					}
+					fr.env[v] = w.evalValue(fr, v)
+				}
+			}
+		}
+		run(tSide)
+		run(fSide)
+		predOf := func(side *ssa.BasicBlock) *ssa.BasicBlock {
+			if side != nil {
+				return side
+			}
+			return a
+		}
+		pt, pf := predOf(tSide), predOf(fSide)
+		it, iff := -1, -1
+		for i, p := range join.Preds {
+			if p == pt && it < 0 {
+				it = i
+			} else if p == pf {
+				iff = i
+			}
+		}
+		if it < 0 || iff < 0 {
+			ok = false
+			return
+		}
+		for _, ins := range join.Instrs {
+			phi, isPhi := ins.(*ssa.Phi)
+			if !isPhi {
+				break
+			}
+			vt, vf := w.get(fr, phi.Edges[it]), w.get(fr, phi.Edges[iff])
+			phiVals = append(phiVals, w.mergeIte(c, vt, vf))
+		}
+	}()
+	if !ok {
+		return nil
+	}
+	i := 0
+	for _, ins := range join.Instrs {
+		phi, isPhi := ins.(*ssa.Phi)
+		if !isPhi {
+			break
+		}
+		fr.env[phi] = phiVals[i]
+		i++
+	}
+	fr.phiDone = join
+	w.IfConversions++
+	return join
 }
